@@ -31,7 +31,9 @@ func hx(b []byte) string {
 }
 
 var strPieces = []string{"a", "Z", "0", " ", "\"", "\\", "\n", "\r", "\t", "\b", "\f", "\x00", "\x1f", "\x7f", "<", ">", "&", "é", "€", "😀", " ", " ",
-	"\xff", "\xc3", "\xe2\x80", "\xed\xa0\x80", "\xf4\x90\x80\x80", "\xc0\xaf", "/", "'"}
+	"\xff", "\xc3", "\xe2\x80", "\xed\xa0\x80", "\xf4\x90\x80\x80", "\xc0\xaf", "/", "'",
+	// text that looks like the encoder's own escapes: a backslash followed by u003c, u0026, u2028, n, "
+	`\u003c`, `\u003e`, `\u0026`, `\u2028`, `\ufffd`, `\n`, `\"`, `\\`, "u003c"}
 
 func genStr(p *prng) string {
 	var sb strings.Builder
